@@ -263,6 +263,8 @@ def run(F, rep, tier):
     rule_r1(F, rep)
     rule_r2(F, rep)
     rule_r3(F, rep)
+    from . import objflags
+    objflags.rule(F, rep, "C11.R4")
     rep.assume("order-independence of values in general and collections between requests (C03) are not decided; "
                "the interner and arena are append-only and their order is unobservable (C05.R4)")
     return EXPLANATION
